@@ -3,6 +3,7 @@ import ProductMD.Proofs.TreeInfoText
 import ProductMD.Proofs.C17General
 import ProductMD.Proofs.C05TreeInfo
 import ProductMD.Model.TreeInfoLegacy
+import ProductMD.Model.TreeInfoCompat
 /-!
 C17, last sentence of the property: *a pre-productmd reader given only the compatibility sections sees the same tree*.
 The stand-in for such a reader is the library's own reader for files without `[header]` (`Legacy.deserialize` at header
@@ -16,13 +17,6 @@ namespace PM
 namespace TI
 open Ini Legacy
 set_option Elab.async false
-
-/-- the sections of a written `.treeinfo` that a pre-productmd file also has -/
-def compatSec (s : Str) : Bool := s == sGeneral || s == sStage2 || s == sChecksums || isImg s
-
-/-- the written document restricted to them: no `[header]`, `[release]`, `[tree]`, `[variant-*]`, `[addon-*]`,
-`[media]`, `[base_product]` -/
-def compatDoc (d : Ini) : Ini := d.filter fun s => compatSec s.1
 
 /-! ### the parser primitives on the restricted document -/
 
@@ -69,7 +63,7 @@ theorem hasOption_ncompat (d : Ini) {s : Str} (h : compatSec s = false) (k : Str
 theorem hasSection_ncompat (d : Ini) {s : Str} (h : compatSec s = false) : Ini.hasSection (compatDoc d) s = false := by
   unfold Ini.hasSection; rw [lookup_ncompat d s h]; simp
 
-theorem isImg_compat {s : Str} (h : isImg s = true) : compatSec s = true := by unfold compatSec; simp [h]
+theorem isImg_compat {s : Str} (h : isImg s = true) : compatSec s = true := by unfold compatSec; unfold isImg at h; simp [h]
 
 /-- the `images-*` sections are all kept -/
 theorem names_compat_img : ∀ d : Ini,
@@ -403,17 +397,8 @@ theorem optionLookup_gen (k : Str) (rest : List (Str × Str)) (dflt : Option Str
 
 /-! ### release, tree, media -/
 
-/-- `Release.deserialize_0_0` on the version string: the last part between `-` / `_` that is a dotted number, else everything -/
-def legacyVersion (version : Str) : Str :=
-  (splitCls { ranges := [(45, 45), (95, 95)], neg := false } version).foldl
-    (fun v i => if pyMatches Gen.re_treeinfo_Release_deserialize_0_0_1 i then i else v) version
-
 omit V in
 theorem version00_eq (version : Str) : version00 version = .ok (legacyVersion version) := rfl
-
-/-- the release a 0.0 reader makes of `[general] family / version`: known families are normalised and get their short name -/
-def legacyRelease (t : TreeInfo) : Product :=
-  ⟨(releaseShort00 t.release.name).1, (releaseShort00 t.release.name).2, legacyVersion t.release.version⟩
 
 theorem deReleaseL_ok (hv : validateClass "treeinfo.Release" (releaseObj (legacyRelease t) false) = .ok ()) :
     deReleaseL .v00 (compatDoc d) = .ok (legacyRelease t, false) := by
@@ -421,13 +406,6 @@ theorem deReleaseL_ok (hv : validateClass "treeinfo.Release" (releaseObj (legacy
   unfold legacyRelease at hv ⊢
   simp only [gen_get V gen_family (by decide), gen_get V gen_version (by decide), version00_eq, bind, Except.bind, pure,
     Except.pure, hv]
-
-/-- `set.add` in insertion order -/
-def dedupe (l : List Str) : List Str := l.foldl (fun acc p => if acc.contains p then acc else acc ++ [p]) []
-
-/-- the platforms a 0.0 reader knows: the tree architecture and one per `[images-*]` section
-(`[general] platforms` is not consulted) -/
-def legacyPlatforms (t : TreeInfo) : List Str := dedupe ([t.tree.arch] ++ (sortKV t.images).map (·.1))
 
 theorem deTreeL_ok (fo : FloatOracle) (n' : Int) (hfl : fo.intOfFloatStr (Str.intStr n) = .ok n')
     (harch : compatSec t.tree.arch = false) (hok : ImagesOK t.tree.arch t.images)
@@ -461,35 +439,11 @@ theorem deMediaL_ok : deMediaL true (compatDoc d) = .ok (none, none) := by
 
 /-! ### the one variant -/
 
-/-- `VariantPaths.deserialize_0_0` when only `[general]` can answer: `repo` / `pkgdir` are `[general] repository` /
-`packagedir` (absent = `none`).  A missing repository is `.`, a missing package directory is the repository; trailing `/`
-and a trailing `/repodata` go; RHEL 3–6 and Fedora get their historical layouts; in a `src` tree both land in the
-`source_*` fields. -/
-def legacyPathVals (c : VCtx) (id : Str) (repo pkgdir : Option Str) : PathVals :=
-  let repo0 : Option Str := match repo with | some r => some r | none => some ".".toList
-  let repo1 := orStr (some (rstripSlash (repo0.getD []))) ".".toList
-  let repo2 := if Str.endsWith repo1 "/repodata".toList then repo1.take (repo1.length - 9) else repo1
-  let repo3 : Option Str :=
-    if repo2 == ".".toList then
-      let r56 : Option Str := if isRhelMajor c ["5".toList, "6".toList] then some id else some repo2
-      if isRhelMajor c ["3".toList, "4".toList] then none else r56
-    else some repo2
-  let pk0 : Option Str := match pkgdir with | some p => some p | none => repo3
-  let pk1 := orStr (some (rstripSlash (orStr pk0 []))) ".".toList
-  let pk2 : Str :=
-    if isRhelMajor c ["5".toList] then id
-    else if isRhelMajor c ["3".toList, "4".toList] then "RedHat/RPMS".toList
-    else if c.relShort == sFedora then (if pk1 == ".".toList then "Packages".toList else pk1)
-    else pk1
-  let blank : PathVals := Gen.TREEINFO_PATH_FIELDS.map fun f => (f, none)
-  let vals := setVal kPackages (some pk2) (setVal kRepository repo3 blank)
-  setVal kIdentity none (if c.arch == sSrc then srcSwap vals else vals)
-
 theorem pathVals00_ok (c : VCtx) :
     pathVals00 c (compatDoc d) key key = .ok (legacyPathVals c key ((generalOpts t n key v).lookup kRepository)
       ((generalOpts t n key v).lookup kPackagedir)) := by
   have f1 : ∀ dflt, optionLookup (compatDoc d) [(pVariant ++ key, kRepository), (pAddon ++ key, kRepository), (sGeneral, kRepository)] dflt
-      = .ok (match (generalOpts t n key v).lookup kRepository with | some r => some r | none => dflt) := by
+      = .ok (orOpt ((generalOpts t n key v).lookup kRepository) dflt) := by
     intro dflt
     rw [optionLookup_skip d _ _ _ (ncompat_variant key), optionLookup_skip d _ _ _ (ncompat_addon key),
       optionLookup_gen V _ _ _ (by decide)]
@@ -498,7 +452,7 @@ theorem pathVals00_ok (c : VCtx) :
       [(pVariant ++ key, kPackages), (pVariant ++ key, kPackagedir), (pAddon ++ key, kPackages), (pAddon ++ key, kPackagedir),
        (pVariant ++ key, kPackages), (pVariant ++ key, kPackagedir), (pAddon ++ key, kPackages), (pAddon ++ key, kPackagedir),
        (sGeneral, kPackages), (sGeneral, kPackagedir), (sGeneral, kPackagedirs)] dflt
-      = .ok (match (generalOpts t n key v).lookup kPackagedir with | some r => some r | none => dflt) := by
+      = .ok (orOpt ((generalOpts t n key v).lookup kPackagedir) dflt) := by
     intro dflt
     rw [optionLookup_skip d _ _ _ (ncompat_variant key), optionLookup_skip d _ _ _ (ncompat_variant key),
       optionLookup_skip d _ _ _ (ncompat_addon key), optionLookup_skip d _ _ _ (ncompat_addon key),
@@ -553,10 +507,6 @@ theorem readVariant_ok (c : VCtx) (f : Nat) (hk : key ≠ []) (hd : '-' ∉ key)
     hsplit, hr, List.map_nil, loopFile, hpaths]
 
 
-/-- the one variant a 0.0 reader builds -/
-def legacyVariant (c : VCtx) (key : Str) (repo pkgdir : Option Str) : Variant :=
-  .mk key key key key tVariant (valsToPaths (legacyPathVals c key repo pkgdir)) []
-
 theorem deTopsL_ok (c : VCtx) (hk : key ≠ []) (hd : '-' ∉ key) (hr : rhel5Addons c key [] = [])
     (hv1 : validateClass "treeinfo.Variant" (variantObj none key key key tVariant []) = .ok ())
     (hv2 : validateClass "treeinfo.Variants" (variantsObj [legacyVariant c key ((generalOpts t n key v).lookup kRepository)
@@ -578,20 +528,6 @@ theorem deTopsL_ok (c : VCtx) (hk : key ≠ []) (hd : '-' ∉ key) (hr : rhel5Ad
 end general
 
 /-! ### the whole reader -/
-
-def legacyCtx (t : TreeInfo) : VCtx :=
-  ⟨(legacyRelease t).name, (legacyRelease t).short, (legacyRelease t).version, t.tree.arch⟩
-
-/-- **what the 0.0 reader makes of the compatibility sections** of the document written for `t`, where `[general]` names
-the variant `key` (designating `chosen`) and carries the timestamp the reader turns into `n'` -/
-def legacyTree (t : TreeInfo) (n' : Int) (key : Str) (chosen : Variant) : TreeInfo :=
-  { headerVersion := currentVersion, release := legacyRelease t, isLayered := false, baseProduct := none,
-    tree := ⟨t.tree.arch, .int n', legacyPlatforms t⟩,
-    variants := [legacyVariant (legacyCtx t) key
-      (generalPath t.tree.arch chosen.paths "repository".toList "source_repository".toList)
-      (generalPath t.tree.arch chosen.paths "packages".toList "source_packages".toList)],
-    checksums := sortKV t.checksums, images := sortKV (t.images.map imgNorm),
-    mainimage := normOpt t.mainimage, instimage := normOpt t.instimage, discnum := none, totaldiscs := none }
 
 /-- no absolute path among checksum paths, image paths, stage2 paths (an absolute path is cut by the 0.0 `_fix_path`) -/
 structure RelPaths (t : TreeInfo) : Prop where
